@@ -17,6 +17,7 @@ mod c_scope;
 mod c_round;
 mod c_diag;
 mod c_unify;
+mod c_ctx;
 
 fn main() {
     colored::control::set_override(false);
@@ -35,6 +36,7 @@ fn main() {
         "record-scope" => c_scope::record(rest),
         "roundtrip" => c_round::main(rest),
         "record-unify" => c_unify::record(rest),
+        "record-ctx" => c_ctx::record(rest),
         "replay-listing" => c_diag::replay_listing(rest),
         "plant-scope" => c_diag::plant_scope(rest),
         "plant-type" => c_diag::plant_type(rest),
@@ -48,6 +50,7 @@ fn main() {
             "record" => c_pipe::record_worker(&rest[1..]),
             "roundtrip" => c_round::worker(),
             "unify" => c_unify::worker(),
+            "ctx" => c_ctx::worker(),
             "plant-type" => c_diag::plant_type_worker(),
             k => {
                 eprintln!("unknown worker kind {k}");
